@@ -106,6 +106,20 @@ def gen_cases(rng, tier):
         yield {'op': 'whole', 'code': code, 'bits': w[:cut]}
         yield {'op': 'whole', 'code': code, 'bits': w + ''.join(rng.choice('01') for _ in range(rng.randrange(1, 5)))}
         yield {'op': 'whole', 'code': code, 'bits': w, 'opt_ba': rng.random() < 0.4}
+    # incomplete codes whose remainder is LONG: codes followed by hundreds or thousands of zero bits (ue/se: an unterminated prefix; uie/sie: a run of
+    # "continue" pairs that ends with the data), and very long codewords cut short - through every reading method, after some complete codes
+    for _ in range(40 if tier == 'quick' else 800):
+        code = rng.choice(CODES)
+        done = [ref_enc(code, rng.randrange(0, 50)) for _ in range(rng.randrange(0, 3))]
+        r = rng.random()
+        if r < 0.6: tail = '0' * rng.choice([200, 511, 512, 513, 514, 600, 1024, 1025, 2000, 4097, 9000])
+        else:
+            w = ref_enc(code, (1 << rng.choice([130, 260, 300, 520, 1030])) + rng.randrange(1000))
+            tail = w[:len(w) - rng.choice([1, 2, 3, 7, len(w) // 3])]
+        if code in ('uie', 'sie') and r < 0.6: tail = tail[:len(tail) // 2 * 2]      # zero PAIRS keep an interleaved code going
+        pre = ''.join(done)
+        yield {'op': 'read', 'code': code, 'bits': pre + tail, 'pos': len(pre), 'via': rng.choice(['read', 'peek', 'internal', 'readlist'])}
+        yield {'op': 'whole', 'code': code, 'bits': tail}
     for _ in range(100 if tier == 'quick' else 2500):
         k = rng.randrange(1, 9)
         items = []
